@@ -79,12 +79,16 @@ def _random_spec(R) -> list:
             spec.append((rel, 'dir', ''))
             dirs.append((rel, depth + 1))
         elif k < 0.60:
-            kind = R.choice(['file', 'dir', 'sibling', 'ancestor', 'hidden', 'nowhere', 'dir', 'ancestor'])
+            kind = R.choice(['file', 'dir', 'sibling', 'ancestor', 'hidden', 'nowhere', 'dir', 'ancestor'] + (['self', 'thrufile'] if R.random() < 0.5 else []))
             here = d
             if kind == 'file' and files:
                 text = os.path.relpath(R.choice(files), here or '.')
             elif kind == 'dir' and len(dirs) > 1:
                 text = os.path.relpath(R.choice(dirs[1:])[0], here or '.')
+            elif kind == 'self':
+                text = name                      # a link to itself: every stat fails with ELOOP, lstat succeeds (defect D32)
+            elif kind == 'thrufile' and files:
+                text = os.path.relpath(R.choice(files), here or '.') + '/x'      # a path through a regular file: ENOTDIR
             elif kind == 'sibling':
                 sib = [x for x in have if os.path.dirname(x) == d]
                 text = os.path.basename(R.choice(sib)) if sib else 'nowhere'
